@@ -42,7 +42,11 @@ func cmdFunc(args []string) int {
 		fmt.Fprintln(os.Stderr, "load:", err)
 		return 2
 	}
-	fr := w.RunFunc(args[0], args[1], RunOpts{})
+	opts := RunOpts{TrackAllocs: os.Getenv("GOVC_ALLOCS") != "", AppendMustFit: os.Getenv("GOVC_ALLOCS") != ""}
+	if opts.TrackAllocs {
+		opts.AllocFilter = w.allocFilterFor(args[0], nil)
+	}
+	fr := w.RunFunc(args[0], args[1], opts)
 	if fr.Err != "" {
 		fmt.Println("ERROR:", fr.Err)
 		return 2
